@@ -220,7 +220,14 @@ class Gen:
         toks += [b] * depth
         text = rng.choice(INDENT) + "".join(toks)
         lines = text.split("\n")
-        return lines, ["M"] * len(lines), set()
+        tags = set()
+        if self.f["single"] and rng.random() < 0.12:
+            # a line comment after the last closer that mentions block markers: plain comment text
+            pre = rng.choice(self.f["single"])
+            if not any(pre.startswith(x) or x.startswith(pre) for x in (a, b)):
+                lines[-1] += " " + pre + " see " + rng.choice([a, a + " x " + a, b + " " + a, a + " y"]) + " z"
+                tags.add("K02_nested_opener_in_tail_comment")   # D45
+        return lines, ["M"] * len(lines), tags
 
     def p_lua(self):
         rng = self.rng
@@ -244,6 +251,10 @@ class Gen:
         tags = set()
         for _ in range(n):
             t = self.hostile_text(ban=(b, "sloc-guard:"))
+            if rng.random() < 0.15:
+                # the closer as a word inside the text: it closes a block only at the start of a line
+                t = rng.choice(["the ", "x ", " "]) + b + rng.choice(["", " of", " y"])
+                tags.add("K02_linestart_closer_midline")   # D46
             mids.append(t)
         lines = [a + rng.choice(["", " doc"])] + mids + [b]
         return lines, ["M"] * len(lines), tags
